@@ -410,8 +410,17 @@ def run_exec_batch(ctx, execs):
                 continue
             text = progrun.compile_error_text(r)
             lines = [l for l in text.splitlines() if l.strip()]
-            first = next((l for l in lines if l.startswith(("fatal error:", "error:")) or "panicked at" in l), lines[0] if lines else "")[:160]
-            ctx.violation("c11:compile-rejected:%s:%s" % (key[0], re.sub(r"\d+", "N", first)),
+            pm = _PANIC.search(text)
+            if pm:
+                sig = panic_key(text)
+            else:
+                # a failure of the Dora-written compiler: message line followed by `    function (file:line:col)` frames
+                at = next((i for i, l in enumerate(lines) if l.startswith(("fatal error:", "error:")) or l.strip() in execu.TRAP_MSG.values()
+                           or l.startswith("unreachable code")), None)
+                first = lines[at] if at is not None else (lines[-1] if lines else "")
+                frames = [l.strip().split(" (")[0] for l in lines[(at or 0) + 1:] if l.startswith("    ") and "(" in l][:2]
+                sig = re.sub(r"\d+", "N", first[:120]) + ("@" + ">".join(frames) if frames else "")
+            ctx.violation("c11:compile-rejected:%s:%s" % (key[0], sig),
                           "a program of matches the front end accepted was rejected / crashed the %s compiler:\n%s" % (key[0], text[-1500:]),
                           files={"program.dora": src[name]})
         for key, exe in b.exes.items():
